@@ -317,9 +317,13 @@ def system_checks(ctx):
     resC = {'name': 'strehl-model-vs-implementation', 'n': 0, 'nontrivial': 0, 'samples': [], 'disagreements': []}
     bodiesB, metaB, bodiesC, metaC = [], [], [], []
     for cfg, o in built:
+        wf = None
         try:
             nrw = ctx.n(3, 5)
             wf = Wavefront(o, fields=[(0.0, 0.0)], wavelengths=[c06_lib.WL], num_rays=nrw, distribution='hexapolar')
+        except Exception as e:     # noqa
+            resB['disagreements'].append(_witness(cfg, [{'kind': 'wavefront-raises', 'error': repr(e)[:200]}]))
+        if wf is not None:
             data = np.asarray(wf.data[0][0][0], dtype=float)
             inten = np.asarray(wf.data[0][0][1], dtype=float)
             dist = wf.distribution
@@ -339,22 +343,21 @@ def system_checks(ctx):
             bodiesB.append(f'Definition res := wavefront_data {env} {_coq_rec(chief, fh)} {rl}.\n'
                            f'Eval vm_compute in (report [match res with None => false | Some l => '
                            f'close_list {fh(1e-9)} (flat_map (fun p => [fst p; snd p]) l) {vlib.flist(exp)} end]).\n')
-            cosines = [abs(float(sg.N[-2, 0]))]
             _, tol_w = c06_lib.tolerances(cfg, min(abs(r[5]) for r in rays) if all(math.isfinite(r[5]) for r in rays) else 1.0)
             metaB.append((cfg, data, tol_w))
-        except Exception as e:     # noqa
-            resB['disagreements'].append(_witness(cfg, [{'kind': 'wavefront-raises', 'error': repr(e)[:200]}]))
+        ps = None
         try:
             npsf = ctx.n(12, 24)
             ps = FFTPSF(o, (0.0, 0.0), c06_lib.WL, num_rays=npsf, grid_size=64)
+        except Exception as e:     # noqa
+            resC['disagreements'].append(_witness(cfg, [{'kind': 'psf-raises', 'error': repr(e)[:200]}]))
+        if ps is not None:
             sval = float(ps.strehl_ratio())
             d0 = np.asarray(ps.data[0][0][0], dtype=float)
             i0 = np.asarray(ps.data[0][0][1], dtype=float)
             dl = '[' + '; '.join(f'({fh(float(a))}, {fh(float(b))})' for a, b in zip(d0, i0)) + ']'
             bodiesC.append(f'Eval vm_compute in (report [close {fh(1e-9)} (strehl_dc (O:=FOps) {dl}) {fh(sval)}]).\n')
             metaC.append((cfg, sval, len(d0)))
-        except Exception as e:     # noqa
-            resC['disagreements'].append(_witness(cfg, [{'kind': 'psf-raises', 'error': repr(e)[:200]}]))
     for res, bodies_, meta_ in ((resB, bodiesB, metaB), (resC, bodiesC, metaC)):
         try:
             out = vlib.run_cases('C06' + res['name'][:4], 'From OV Require Import Model.M_C06.', bodies_)
